@@ -212,7 +212,8 @@ def judge (m : Mode) (j : Json) : List Int × Bool :=
 /-- the verdict observed from outside: the reply's code and whether the device was contacted -/
 def allowedObs (m : Mode) (j : Json) (o : LineObs) : Bool :=
   let (may, must) := judge m j
-  let contacted := !(apdus o.events).isEmpty
+  -- any event counts: an APDU, but also the disconnect / re-open of a pending link repair
+  let contacted := !o.events.isEmpty
   match errorcode? o.reply with
   | none => false                                  -- no reply with a code: a crash
   | some c =>
